@@ -156,10 +156,13 @@ def h_unit_order(eng, u, v):
             eng.prove(Iff(op(a, c), op(pa, c)), f"unit-{name}-number")
 
 
-def h_bare(eng, u):
-    """comparison with a bare number: defined for dimensionless quantities and for zero"""
+def h_bare(eng, u, huge=False):
+    """comparison with a bare number: defined for dimensionless quantities and for zero
+    (huge: the bare number is the concrete integer 10**400, beyond the range of a float)"""
     ureg = regs.default(eng)
     x, c = eng.real("x"), eng.real("c")
+    if huge:
+        c = 10**400 if not eng.symbolic else eng.num(10**400)
     a = ureg.Quantity(x, u)
     iu = covers.info(u)
     dimless = not iu.dims
@@ -253,4 +256,5 @@ def cases(tier, seed):
     # H05.e bare numbers
     for u in ["meter", "radian", "percent", "count", "degree", "kelvin", "degree_Celsius", "delta_degree_Celsius", "newton", "ppm", "byte"]:
         out.append(Case("H05.e", u, M, "h_bare", {"u": u}))
+        out.append(Case("H05.e", u + ":huge", M, "h_bare", {"u": u, "huge": True}))
     return out
